@@ -136,7 +136,7 @@ Definition C10_full_statement : Prop :=
   data_of (fst (fst (read_stream MaxFrameSize (wire_id s1) weof caps dcap (encode_all MaxFrameSize m) c))) = accepted ops1 /\
   last (fst (fst (read_stream MaxFrameSize (wire_id s1) weof caps dcap (encode_all MaxFrameSize m) c))) RFuel = REof.
 
-(* It is FALSE of the faithful model (known finding wire-id-truncation): TunnelIDFromString keeps 16 bytes, and the
+(* It is FALSE of the faithful model of the TRUNCATING tree (pinned; known finding wire-id-truncation): TunnelIDFromString keeps 16 bytes, and the
    ids the client generates ("tcp-tunnel-<UnixNano>-<port>") agree on their first 16 bytes for ~27 hours. *)
 Theorem C10_full_statement_refuted : ~ C10_full_statement.
 Proof. exact string_level_separation_refuted. Qed.
@@ -146,6 +146,36 @@ Theorem C10_wire_id_collision_witness :
   id_a <> id_b /\ wire_id id_a = wire_id id_b /\ id_to_string (wire_id id_a) <> id_a.
 Proof. exact wire_id_collision. Qed.
 Print Assumptions C10_wire_id_collision_witness.
+
+(* The REPAIRED TunnelIDFromString (fixes/C10-wire-id-hash.diff; wire_id_h H: ids of at most 16 bytes verbatim, longer ids
+   hashed as a whole by H): the FULL statement holds for all tunnel ids in use, under exactly these hypotheses on H:
+   on the ids in use H yields 16 bytes, is injective on the long ones, and never produces the padded form of a short one;
+   short ids contain no zero byte (the padding).  MaxFrameSize and its side conditions as before. *)
+Theorem C10_full_statement_repaired :
+  forall (H : list byte -> list byte) (used : list byte -> Prop),
+  (forall s, used s -> 16 < length s -> length (H s) = 16) ->
+  (forall s1 s2, used s1 -> used s2 -> 16 < length s1 -> 16 < length s2 -> H s1 = H s2 -> s1 = s2) ->
+  (forall s1 s2, used s1 -> used s2 -> 16 < length s1 -> length s2 <= 16 -> H s1 <> wire_id s2) ->
+  (forall s, used s -> length s <= 16 -> Forall (fun b => b <> 0%N) s) ->
+  forall (s1 s2 : list byte) (ops1 ops2 : list wop) (m : list frame) (weof : bool) (caps : list nat) (dcap : nat) (c : list nat),
+  used s1 -> used s2 -> s1 <> s2 ->
+  Interleave (script_frames MaxFrameSize (wire_id_h H s1) false ops1) (script_frames MaxFrameSize (wire_id_h H s2) false ops2) m ->
+  Forall (fun k => 1 <= k) caps -> 1 <= dcap ->
+  data_of (fst (fst (read_stream MaxFrameSize (wire_id_h H s1) weof caps dcap (encode_all MaxFrameSize m) c))) = accepted ops1 /\
+  last (fst (fst (read_stream MaxFrameSize (wire_id_h H s1) weof caps dcap (encode_all MaxFrameSize m) c))) RFuel = REof.
+Proof. intros H used Hl Hi Hs Hn. exact (tunnels_separated_hashed H used Hl Hi Hs Hn MaxFrameSize max_frame_fits_u32 max_frame_pos). Qed.
+Print Assumptions C10_full_statement_repaired.
+
+(* non-vacuity: a toy hash meets the four hypotheses on a set of ids containing the two ids that collide under truncation
+   and a short id, and separates them *)
+Theorem C10_repaired_premises_satisfiable :
+  (forall s, toy_used s -> 16 < length s -> length (toy_hash s) = 16) /\
+  (forall s1 s2, toy_used s1 -> toy_used s2 -> 16 < length s1 -> 16 < length s2 -> toy_hash s1 = toy_hash s2 -> s1 = s2) /\
+  (forall s1 s2, toy_used s1 -> toy_used s2 -> 16 < length s1 -> length s2 <= 16 -> toy_hash s1 <> wire_id s2) /\
+  (forall s, toy_used s -> length s <= 16 -> Forall (fun b => b <> 0%N) s) /\
+  toy_used id_a /\ toy_used id_b /\ id_a <> id_b /\ wire_id id_a = wire_id id_b /\ wire_id_h toy_hash id_a <> wire_id_h toy_hash id_b.
+Proof. exact hashed_premises_satisfiable. Qed.
+Print Assumptions C10_repaired_premises_satisfiable.
 
 (* What holds: the same statement under the guard that excludes exactly that region — the two strings have
    different wire ids (first 16 bytes, zero padded). *)
